@@ -167,9 +167,12 @@ def _splice(bj, call_bb, callee_j, arg_ops, dest, target, is_poll, upvar_args=No
 
 
 def _is_async_fn(program, key):
+    """`async fn` (its body only builds the coroutine `{closure#0}`); a sync fn whose first closure happens to be an
+    `async move {}` block is not one"""
+    f = program.bodies.get(key)
     ck = key + "::{closure#0}"
     b = program.bodies.get(ck)
-    return b is not None and b.is_coroutine
+    return f is not None and f.j.get("is_async_fn") in (True, "true") and b is not None and b.is_coroutine
 
 
 def _coroutine_param_map(fn_body, co_name):
@@ -194,8 +197,10 @@ def inline_unknown_helpers(program, known_fns):
         if b.kind in ("Fn", "AssocFn") and key not in known_fns and not key.startswith(("anytls_client::", "anytls_server::")):
             new_fns.add(key)
     report = {"unknown_functions": sorted(new_fns), "spliced": []}
+    program.spawn_alias = {}
     if not new_fns:
         return report
+    consumed = set()    # (caller key, block of the call that creates the future) whose await was spliced
     for _ in range(MAX_ROUNDS):
         changed = False
         for key in list(program.bodies):
@@ -234,6 +239,7 @@ def inline_unknown_helpers(program, known_fns):
                     make = mk[0]
                     upargs = {k: make.args[pi] for k, pi in pm.items() if pi < len(make.args)}
                     _splice(bj, c.bb, co.j, c.args, c.dest, c.target, True, upargs)
+                    consumed.add((key, make.bb))
                     report["spliced"].append("%s <- %s (awaited at %s)" % (key, fn, c.site))
                     did = True
             if did:
@@ -247,6 +253,7 @@ def inline_unknown_helpers(program, known_fns):
         co_key = fn + "::{closure#0}"
         is_async = _is_async_fn(program, fn)
         left = 0
+        makers = []
         for key, body in program.bodies.items():
             if key == fn or key.startswith(fn + "::"):
                 continue
@@ -255,6 +262,15 @@ def inline_unknown_helpers(program, known_fns):
                     left += 1
                 if is_async and c.callee == co_key:
                     left += 1
+                if is_async and c.callee == fn and (key, c.bb) not in consumed:
+                    # the future is created here but never awaited in this body (handed to spawn, stored, returned): the
+                    # helper stays a body of its own
+                    left += 1
+                    makers.append(key)
+        if is_async and makers and len(set(makers)) == 1:
+            # a task body given a name: `tokio::spawn(helper(..))` instead of `tokio::spawn(async move {..})`; reports keep
+            # naming the function that starts the task
+            program.spawn_alias[fn] = makers[0].split("::{closure")[0]
         if left == 0:
             away.add(fn)
             for key in program.bodies:
